@@ -531,6 +531,12 @@ func mkScenario(c *hl.Ctx, spec scenarioSpec) mc.Scenario {
 		Check: func(x *vsched.Exec) (string, string, string) {
 			d := x.Data.(*execData)
 			o, k, w := judge(d)
+			if k == "" {
+				// delivery clause: what a peer reading this wire hands to its application (delivery.go)
+				st, dk, dw := judgeDelivery(d.c.wire, sp.Server, sp.Comp)
+				countDelivery(c, st, sp.Name+"|"+o)
+				k, w = dk, dw
+			}
 			if k != "" {
 				if sp.Feature != "" {
 					k += "/" + featureOf(d, w)
@@ -599,7 +605,7 @@ func baseSpecs() []scenarioSpec {
 }
 
 func run(c *hl.Ctx) {
-	c.Rule("E1: every interleaving within the reported preemption bound (-1 = unbounded, with state-key pruning) of a data writer, control-frame senders, a closer and a ping-answering reader on one real Conn, and the same with a one-shot transport write failure (expired deadline or plain error, nothing or half accepted) at every position 0..4 of the transport write history; every transport write must run under the write deadline its own caller set; scheduling points: every transport Write/Read/Close, every receive/send/select on the lock channel c.mu (R3), Lock/Unlock of writeErrMu (R1). state = distinct observable outcome (frame sequence with owning goroutine); transition = scheduling step." + entryRule + histRule + openwRule)
+	c.Rule("E1: every interleaving within the reported preemption bound (-1 = unbounded, with state-key pruning) of a data writer, control-frame senders, a closer and a ping-answering reader on one real Conn, and the same with a one-shot transport write failure (expired deadline or plain error, nothing or half accepted) at every position 0..4 of the transport write history; every transport write must run under the write deadline its own caller set; scheduling points: every transport Write/Read/Close, every receive/send/select on the lock channel c.mu (R3), Lock/Unlock of writeErrMu (R1). state = distinct observable outcome (frame sequence with owning goroutine); transition = scheduling step." + entryRule + histRule + openwRule + deliveryRule)
 	c.Assume("write deadlines are zero or far in the future: the lock-acquisition timeout path of WriteControl is not explored", "one data writer (the library's documented usage)", "open-writer family: the documented API behaviour 'NextWriter closes the previous writer if the application has not already done so' (WriteMessage is NextWriter+Write+Close) is the reference for what a message-API call does to a still-open data writer: it finishes that message with exactly the bytes accepted so far (required only before a Close frame or a new data message; a ping/pong sent between the fragments instead is accepted too)", "unsynchronised accesses between scheduling points are judged by the separate free-running race-detector pass")
 	if c.Mode() == "race" {
 		racePass(c)
